@@ -535,7 +535,10 @@ Definition admin_of_cbor (reason_ok : N -> bool) (c : cbor) : option admin_recor
                     end
         | _ => None
         end
-      else Some (AdminOther t body)
+      else match body with
+           | CBstr _ => None      (* the implementation reads a bare bstr content as ENCODED CBOR *)
+           | _ => Some (AdminOther t body)
+           end
   | _ => None
   end.
 
@@ -686,8 +689,9 @@ Definition ren_status_report (r : status_report) :=
    [sr_reason r; sr_time r; sr_seq r], ren_eid (sr_src r),
    [ren_opt (sr_frag_off r); ren_opt (sr_pay_len r)]).
 
-(** one run of the encoder side: octets of [bytes(Bundle)], of the clean
-    encoder, of the same bundle with model-computed CRCs, and the flags
+(** one run of the encoder side: octets of [bytes(Bundle)] with the given CRC
+    octets, octets after [update_all_crc] (CRCs computed by the model over what
+    is actually emitted), and the flags
     [wf_bundleb; impl guard (decidable part); rfc_admin_ok; rfc9171_extrab;
      crc_ok_bundle] *)
 Definition bundle_eqb_items (a b : bundle) : bool :=
@@ -695,7 +699,7 @@ Definition bundle_eqb_items (a b : bundle) : bool :=
 Definition impl_guardb (b : bundle) : bool :=
   bundle_eqb_items (impl_norm_bundle b) b && impl_admin_ok b.
 Definition run_encode (b : bundle) :=
-  (impl_encode_bundle b, impl_encode_bundle (with_crc_bundle b),
+  (impl_encode_bundle b, encode_bundle (with_crc_bundle (impl_norm_bundle b)),
    [wf_bundleb b; impl_guardb b; rfc_admin_ok b; rfc9171_extrab b; crc_ok_bundle b]).
 (** decoder side: decoded fields, and the octets the model re-encodes them to *)
 Definition run_decode (bs : bytes) :=
